@@ -192,9 +192,10 @@ def run(ctx):
         from concurrent.futures import ThreadPoolExecutor
         with ThreadPoolExecutor(max_workers=2) as ex:
             f1 = ex.submit(evalrun.tlc_items, ctx, "VectorExpand", "vexp", ctx.tier, "VectorExpand_%s.cfg" % ctx.tier, 4)
-            f2 = ex.submit(evalrun.tlc_items, ctx, "VectorExpand", "vexp", ctx.tier, "VectorExpand_asbuilt_%s.cfg" % ctx.tier, 2)
+            deviates = not evalrun.same_constants("VectorExpand_asbuilt_%s.cfg" % ctx.tier, "VectorExpand_%s.cfg" % ctx.tier)
+            f2 = ex.submit(evalrun.tlc_items, ctx, "VectorExpand", "vexp", ctx.tier, "VectorExpand_asbuilt_%s.cfg" % ctx.tier, 2) if deviates else None
             items = f1.result()[0]
-            asbuilt = f2.result()[0]
+            asbuilt = f2.result()[0] if f2 else []
         cov, status = {}, {}
         evals = 0
         outcome = {}
